@@ -201,7 +201,10 @@ def run(ctx):
     ctx.rule("C06.R8", "outside BinaryDecoder the container reader touches the raw input stream only in is_avro (magic comparison) and skip_sync (marker comparison that raises)", floor=2)
     allowed = {"is_avro": "compares with MAGIC", "skip_sync": "compares with the sync marker and raises"}
     rmod8 = p.module("_read_py")
-    for f8 in sorted(rmod8.all_funcs, key=lambda x: x.id):
+    # the reading modules: _read_py and the helper modules of the package it takes functions from (a function moved
+    # there is still part of the container reader)
+    mods8 = [rmod8] + [m for m in p.modules.values() if m is not rmod8 and m.short in ("_read_common",)]
+    for f8 in sorted([f for m in mods8 for f in m.all_funcs], key=lambda x: x.id):
         for n8 in walk_local(f8.node):
             if isinstance(n8, ast.Call) and isinstance(n8.func, ast.Attribute) and n8.func.attr in ("read", "readinto", "readline", "read1") and (norm(n8.func.value) in ("fo", "fp", "stream") or norm(n8.func.value).endswith(".fo")):
                 inst = f"{f8.qualname}: {norm(n8)[:60]}"
